@@ -2,6 +2,7 @@
 # Re-run every stored seeded change against the current /repo and /verif (own property's check plus --extra).
 cd /verif
 for d in seeded/*/; do
+  grep -q '"base"' $d/meta.json && continue      # made on top of a refactoring: tools/seed5_recheck.sh
   n=$(basename $d); pid=$(python3 -c "import json;print(json.load(open('$d/meta.json'))['property'])")
   prev=$(python3 -c "import json;print(','.join(sorted(set(json.load(open('$d/meta.json')).get('detected_by',{}))|{'$pid'})))")
   /venv/bin/python tools/seed_intake.py $n /nonexistent $pid --checks $prev --no-copy 2>&1 | python3 -c "
